@@ -3,6 +3,9 @@ mod file_number;
 
 pub use self::directory::{Directory, RollingReader, RollingWriter};
 pub use self::file_number::{FileNumber, FileTracker};
+#[cfg(quickwit_oss_mrecordlog_verif)]
+#[allow(unused_imports)]
+pub(crate) use self::directory::verif_filename_to_position;
 
 const FRAME_NUM_BYTES: usize = 1 << 15;
 
